@@ -13,7 +13,6 @@ import (
 )
 
 func flushMemstoreContinuously(db *DB) {
-	defer func() { db.doneFlushChannel <- true }()
 	err := func(db *DB) error {
 		for flushAction := range db.storeFlushChannel {
 			err := executeFlush(db, flushAction)
@@ -25,8 +24,12 @@ func flushMemstoreContinuously(db *DB) {
 	}(db)
 
 	if err != nil {
+		// no deferred hand-shake on this path: sending on the unbuffered channel while panicking would wait for a
+		// Close that may never come, the panic would not unwind and the process would hang instead of stopping
 		log.Panicf("error while merging sstable at %s, error was %v", db.currentSSTablePath, err)
 	}
+
+	db.doneFlushChannel <- true
 }
 
 func executeFlush(db *DB, flushAction memStoreFlushAction) error {
